@@ -397,6 +397,7 @@ impl FrameQueue {
     }
     */
 
+
 #[cfg(test)]
 mod tests {
     use super::*;
